@@ -18,7 +18,7 @@ for name, ids in checks.items():
         if subprocess.run(['git', '-C', '/repo', 'apply', d + '/patch.diff']).returncode != 0:
             print(name, 'patch does not apply'); break
         t0 = time.time()
-        r = subprocess.run(['./check', cid, '--tier', 'quick'], cwd='/verif', capture_output=True, text=True)
+        r = subprocess.run(['./check', cid, '--tier', 'quick'], cwd='/verif', capture_output=True, text=True, env=dict(os.environ, VERIF_EVIDENCE_DIR='/tmp/verif-mutant-evidence'))
         subprocess.run(['git', '-C', '/repo', 'checkout', '--', '.'])
         out = r.stdout + r.stderr
         nviol = out.count('\nVIOLATION') + (1 if out.startswith('VIOLATION') else 0)
